@@ -16,22 +16,64 @@ import (
 // debug.SetPanicOnFault the fault is a recoverable panic carrying the address
 // (DESIGN §4.6 "Y build", oracle C19.write).
 type arena struct {
-	br   byteRanges
-	mem  []byte
-	off  int
-	base uintptr
+	// fence: a second mapping of nFence slots of two pages each: a data page
+	// followed by a guard page that is made inaccessible. An object placed so
+	// that it ENDS at the end of its data page cannot be over-read (or
+	// over-written) by even one byte without faulting.
+	fence       []byte
+	fenceUsed   int
+	nbytes      int
+	fencedBytes int
+	br          byteRanges
+	mem         []byte
+	off         int
+	base        uintptr
 }
 
 const ArenaReadOnly = true
 
 const arenaSize = 8 << 20
 
+const (
+	pageSz = 4096
+	nFence = 192
+)
+
 func newArena() *arena {
 	mem, err := syscall.Mmap(-1, 0, arenaSize, syscall.PROT_READ|syscall.PROT_WRITE, syscall.MAP_PRIVATE|syscall.MAP_ANON)
 	if err != nil {
 		panic(engine.HarnessError{Msg: "mmap: " + err.Error()})
 	}
-	return &arena{mem: mem, base: uintptr(unsafe.Pointer(&mem[0]))}
+	fence, err := syscall.Mmap(-1, 0, nFence*2*pageSz, syscall.PROT_READ|syscall.PROT_WRITE, syscall.MAP_PRIVATE|syscall.MAP_ANON)
+	if err != nil {
+		panic(engine.HarnessError{Msg: "mmap(fence): " + err.Error()})
+	}
+	return &arena{mem: mem, base: uintptr(unsafe.Pointer(&mem[0])), fence: fence}
+}
+
+// fenced returns a copy of x that ends exactly at a guard page (cap == len), or
+// nil if no slot is left or x does not fit.
+func (a *arena) fenced(x []byte) []byte {
+	if a.fenceUsed >= nFence || len(x) == 0 || len(x) > pageSz {
+		return nil
+	}
+	end := a.fenceUsed*2*pageSz + pageSz
+	a.fenceUsed++
+	out := a.fence[end-len(x) : end : end]
+	copy(out, x)
+	return out
+}
+
+// inGuard reports whether addr lies in one of the guard pages.
+func (a *arena) inGuard(addr uintptr) bool {
+	if len(a.fence) == 0 {
+		return false
+	}
+	fb := uintptr(unsafe.Pointer(&a.fence[0]))
+	if addr < fb || addr >= fb+uintptr(len(a.fence)) {
+		return false
+	}
+	return ((addr-fb)/pageSz)%2 == 1
 }
 
 func (a *arena) alloc(n, align int) unsafe.Pointer {
@@ -70,6 +112,14 @@ func (a *arena) i32s(x []int32) []int32 {
 }
 
 func (a *arena) bytes(x []byte) []byte {
+	a.nbytes++
+	if a.nbytes%5 == 2 && a.fencedBytes < 48 { // most guard slots are kept for the keys (strings)
+		if fb := a.fenced(x); fb != nil {
+			a.fencedBytes++
+			a.br.add(uintptr(unsafe.Pointer(&fb[0])), uintptr(len(fb)))
+			return fb // ends at a guard page, no spare capacity
+		}
+	}
 	n := len(x) + spareCap
 	out := unsafe.Slice((*byte)(a.alloc(n, 1)), n)
 	copy(out, x)
@@ -83,6 +133,12 @@ func (a *arena) bytes(x []byte) []byte {
 func (a *arena) strs(x []string) []string {
 	hdrs := unsafe.Slice((*string)(a.alloc(16*len(x)+16, 8)), len(x))
 	for i, s := range x {
+		if i%3 == 1 {
+			if fb := a.fenced([]byte(s)); fb != nil {
+				hdrs[i] = unsafe.String(&fb[0], len(fb)) // this key ends at a guard page
+				continue
+			}
+		}
 		nr := len(a.br.lo)
 		b := a.bytes([]byte(s))
 		a.br.lo, a.br.hi = a.br.lo[:nr], a.br.hi[:nr] // string memory is not a []byte input
@@ -100,6 +156,15 @@ func (a *arena) seal() {
 	if err := syscall.Mprotect(a.mem, syscall.PROT_READ); err != nil {
 		panic(engine.HarnessError{Msg: "mprotect: " + err.Error()})
 	}
+	if err := syscall.Mprotect(a.fence, syscall.PROT_READ); err != nil {
+		panic(engine.HarnessError{Msg: "mprotect(fence): " + err.Error()})
+	}
+	for i := 0; i < a.fenceUsed; i++ {
+		g := a.fence[(2*i+1)*pageSz : (2*i+2)*pageSz]
+		if err := syscall.Mprotect(g, syscall.PROT_NONE); err != nil {
+			panic(engine.HarnessError{Msg: "mprotect(guard): " + err.Error()})
+		}
+	}
 }
 
 func (a *arena) free() {
@@ -107,10 +172,21 @@ func (a *arena) free() {
 		_ = syscall.Munmap(a.mem)
 		a.mem = nil
 	}
+	if a.fence != nil {
+		_ = syscall.Munmap(a.fence)
+		a.fence = nil
+	}
 }
 
 func (a *arena) contains(addr uintptr) bool {
-	return addr >= a.base && addr < a.base+uintptr(arenaSize)
+	if addr >= a.base && addr < a.base+uintptr(arenaSize) {
+		return true
+	}
+	if len(a.fence) > 0 {
+		fb := uintptr(unsafe.Pointer(&a.fence[0]))
+		return addr >= fb && addr < fb+uintptr(len(a.fence))
+	}
+	return false
 }
 
 // enablePanicOnFault must be called on every goroutine that calls the library.
